@@ -42,7 +42,7 @@ pub mod syn {
     pub struct FieldsUnnamed { pub unnamed: Punctuated<Field> }
     pub use super::proc_macro2::Ident;
     pub enum Fields { Named(FieldsNamed), Unnamed(FieldsUnnamed), Unit }
-    pub struct Field { pub ident: Option<Ident> }
+    pub struct Field { pub ident: Option<Ident>, pub ty: Type }
     pub struct Variant { pub fields: Fields }
     }
     impl Clone for Type { #[verifier::external_body] fn clone(&self) -> Self { unimplemented!() } }
